@@ -111,7 +111,14 @@ class Pred:
         if isinstance(e, ast.Subscript):
             obj = self.val(e.value, ch)
             try:
+                if isinstance(e.slice, ast.Slice):
+                    lo = self.val(e.slice.lower, ch) if e.slice.lower is not None else None
+                    hi = self.val(e.slice.upper, ch) if e.slice.upper is not None else None
+                    stp = self.val(e.slice.step, ch) if e.slice.step is not None else None
+                    return obj[lo:hi:stp]
                 return obj[self.val(e.slice, ch)]
+            except Unsupported:
+                raise
             except Exception as ex:
                 raise Unsupported(e, f"subscript: {ex}")
         return self.ev.expr(e)
